@@ -11,7 +11,7 @@ import (
 // buffer through operations that cannot block because only one task runs at a time.
 
 type chanState struct {
-	keep   reflect.Value // keeps the real channel alive: its address is this state's identity, and the
+	keep reflect.Value // keeps the real channel alive: its address is this state's identity, and the
 	// garbage collector would otherwise recycle it while queue entries of frozen tasks remain
 	sendq  []*sender
 	recvq  []*Task
